@@ -443,11 +443,13 @@ def short_path(p):
 
 # wrappers through which a value passes unchanged for the purpose of "where does it come from"
 TRANSPARENT_CALLS = re.compile(
-    r"^(<.* as (core|std)::(ops::Deref|ops::DerefMut|convert::Into<.*>|convert::From<.*>|convert::AsRef<.*>|"
-    r"borrow::Borrow<.*>|clone::Clone|iter::IntoIterator|convert::AsMut<.*>)>::"
-    r"(deref|deref_mut|into|from|as_ref|borrow|clone|into_iter|as_mut)"
-    r"|(core|std)::(ops::Deref|ops::DerefMut|convert::Into|convert::From|convert::AsRef|clone::Clone|iter::IntoIterator|borrow::Borrow)::"
-    r"(deref|deref_mut|into|from|as_ref|clone|into_iter|borrow))$")
+    r"(^<.* as (core|std)::(ops::Deref|ops::DerefMut|convert::Into<.*>|convert::From<.*>|convert::AsRef<.*>|"
+    r"borrow::Borrow<.*>|clone::Clone|iter::IntoIterator|convert::AsMut<.*>|borrow::ToOwned)>::"
+    r"(deref|deref_mut|into|from|as_ref|borrow|clone|into_iter|as_mut|to_owned)$)"
+    r"|(^(core|std)::(ops::Deref|ops::DerefMut|convert::Into|convert::From|convert::AsRef|clone::Clone|iter::IntoIterator|borrow::Borrow|borrow::ToOwned)::"
+    r"(deref|deref_mut|into|from|as_ref|clone|into_iter|borrow|to_owned)$)"
+    r"|(<impl (core|std)::(clone::Clone|convert::From<.*>|convert::Into<.*>|iter::IntoIterator|ops::Deref|ops::DerefMut|convert::AsRef<.*>|borrow::ToOwned) for .*>::"
+    r"(clone|from|into|into_iter|deref|deref_mut|as_ref|to_owned)$)")
 
 
 class Prov:
@@ -627,7 +629,7 @@ def peel(t, transparent=True, refs=True, casts=False):
             t = t.sub[0]
         elif casts and t.kind == "cast":
             t = t.sub[0]
-        elif transparent and t.kind == "call" and TRANSPARENT_CALLS.match(t.a) and t.sub:
+        elif transparent and t.kind == "call" and TRANSPARENT_CALLS.search(t.a) and t.sub:
             t = t.sub[0]
         else:
             return t
